@@ -265,6 +265,7 @@ func init() {
 			return "err", direct
 		}
 		direct = append(direct, eccCheckDecoded(in0, x, y)...)
+		retainBig(x, y)
 		return "ok " + ecc32(x) + " " + ecc32(y), direct
 	}
 	reg("point.dec", Full, pointDec)
@@ -434,6 +435,7 @@ func init() {
 	})
 	reg("ecdsa.sign.ref", Full, func(a []string) (string, []string) {
 		r, s := ecc.SignECDSA(unhx(a[0]), unhx(a[1]))
+		retainBig(r, s)
 		return "ok " + ecc32(r) + " " + ecc32(s), nil
 	})
 	reg("schnorr.sign", Full, func(a []string) (string, []string) {
@@ -978,7 +980,7 @@ func eccSchnorrInfiniteR(k, m []byte) []byte {
 func runC05(r *Runner) string {
 	// the other exported functions of the package once, before any verification (package-level values they
 	// share with the verifiers must come out unchanged)
-	r.Do("priv.sum", []string{hx(r.eccScalar(1)) + "," + hx(r.eccScalar(2))}, "warm-up: SumPrivateKeys before verifying", true, "")
+	r.Do("sum.priv", []string{hx(r.eccScalar(1)) + "," + hx(r.eccScalar(2))}, "warm-up: SumPrivateKeys before verifying", true, "")
 
 	zero32 := make([]byte, 32)
 	degenerate := [][]byte{
